@@ -163,10 +163,21 @@ func (vm *VM) directive(ctx context.Context, text *text, d Term) error {
 		text.goals = append(text.goals, arg(0))
 		return nil
 	case procedureIndicator{name: atomInclude, arity: 1}:
-		_, b, err := vm.open(arg(0), nil)
+		f, b, err := vm.open(arg(0), nil)
 		if err != nil {
 			return err
 		}
+
+		// A file that includes itself, directly or through other files, would never stop being included.
+		for _, including := range text.including {
+			if including == f {
+				return permissionError(operationOpen, permissionTypeSourceSink, arg(0), nil)
+			}
+		}
+		text.including = append(text.including, f)
+		defer func() {
+			text.including = text.including[:len(text.including)-1]
+		}()
 
 		return vm.compile(ctx, text, string(b))
 	case procedureIndicator{name: atomEnsureLoaded, arity: 1}:
@@ -231,9 +242,10 @@ func (vm *VM) open(file Term, env *Env) (string, []byte, error) {
 }
 
 type text struct {
-	buf     clauses
-	clauses map[procedureIndicator]*userDefined
-	goals   []Term
+	buf       clauses
+	clauses   map[procedureIndicator]*userDefined
+	goals     []Term
+	including []string // the files being included, outermost first
 }
 
 func (t *text) forEachUserDefined(pi Term, f func(u *userDefined)) error {
